@@ -317,3 +317,40 @@ Proof.
   rewrite HeL. change QPACK_DECOMPRESSION_FAILED with 512.
   destruct e; try discriminate; repeat split; reflexivity.
 Qed.
+
+(* ---------------------------------------------------------------- the configured limit reaches every handle unchanged *)
+Theorem own_limit_reaches_every_handle h configured ps : own_at h configured ps = configured.
+Proof. destruct h as [[psc|] [|]| |[|]]; reflexivity. Qed.
+
+(* ---------------------------------------------------------------- early cancel: an oversize section is refused as too big
+   whatever follows the lines that already exceed the limit (a truncated or undecodable tail is never looked at) *)
+Inductive reads : bytes -> list field -> bytes -> Prop :=
+| reads_nil : forall r, reads r [] r
+| reads_cons : forall r f r' fs t, field_decode r = Ok (f, r') -> reads r' fs t -> reads r (f :: fs) t.
+
+Lemma fields_loop_early_cancel L r fs t : reads r fs t -> forall fuel mem acc,
+  wf_bytes r -> (length r <= fuel)%nat -> mem <= L -> L < mem + section_size fs ->
+  exists n, L < n /\ fields_loop fuel r (Some L) mem acc = Err (DHeaderTooLong n).
+Proof.
+  induction 1 as [r|r f r' fs t Hf Hr IH]; intros fuel mem acc Hwf Hfuel Hmem Hover.
+  - cbn [section_size] in Hover. lia.
+  - destruct r as [|b x]; [discriminate|].
+    destruct fuel as [|k]; [cbn in Hfuel; lia|].
+    cbn [fields_loop]. rewrite Hf. unfold too_long, qs_too_long_strict.
+    destruct (N.ltb_spec L (mem + mem_size f)) as [Hc|Hfit].
+    + exists (mem + mem_size f). split; [exact Hc|reflexivity].
+    + destruct (field_decode_rest _ _ _ Hwf Hf) as [Hwf' Hlen].
+      apply IH; [exact Hwf'|lia|exact Hfit|].
+      cbn [section_size] in Hover. rewrite mem_size_is_field_size. lia.
+Qed.
+
+Theorem oversize_wins_over_bad_tail L bs delta r fs t :
+  wf_bytes bs -> hp_decode bs = Ok (0, false, delta, r) -> reads r fs t -> L < section_size fs ->
+  exists n, L < n /\ decode_stateless (Some L) bs = Err (DHeaderTooLong n).
+Proof.
+  intros Hwf Hh Hr Hover. unfold decode_stateless. rewrite Hh.
+  change (qs_ric_nonzero_rejected && negb (0 =? 0)) with false. cbv iota.
+  change (qs_base_checked && qs_negative_base_is_error && false) with false. cbv iota.
+  destruct (hp_decode_ok _ _ _ _ _ Hwf Hh) as (_ & _ & _ & _ & _ & _ & _ & Hw).
+  eapply fields_loop_early_cancel; eauto; lia.
+Qed.
